@@ -35,6 +35,13 @@ CHECKS = {
         note="Trusted: the canonicaliser (sim/observe.py), SimReader, the in-memory str delivery as reference, CPython's strict codecs for the expected offset of undecodable bytes. K1 (eager validation of a refill block) is accepted as a known finding in exactly the class described in known_findings.txt. The C back-end is the generated _yaml.c / shipped .so (no Cython in the sandbox).",
         technique="deterministic simulation of the input channel: seeded read-size schedules + reference delivery as oracle",
         quick_timeout=900, thorough_timeout=10800),
+    "C10": dict(
+        category="exploration",
+        text="Registration histories as a state machine: each case is a history of define-subclass / add_constructor / add_multi_constructor / add_representer / add_multi_representer / add_implicit_resolver / add_path_resolver / module-level yaml.add_* helper (default and explicit Loader= / Dumper=) / YAMLObject-subclass definition steps, some failing half-way (raising `first` iterable, invalid path element or kind, unhashable key, yaml_loader entry without add_constructor), executed in a child forked from a pristine process next to an executable model of the copy-on-first-write rule. After every step every class of the lattice (all 16 shipped loader/dumper classes of both back-ends plus the history's subclasses) is compared with the model: six effective tables, the mixin root tables, load / compose / dump probe behaviour against a reference class assembled from the model tables, restated exact/multi/None dispatch, and hostile-tag refusal of untargeted safe loaders. The lowest run indices enumerate ALL histories of length <= 2 (quick) / <= 3 (thorough) over a 56-operation alphabet on a fixed lattice; the rest are seeded 5-40 step histories with swarm-chosen kinds, lattice shape and failure rate. Seeded exploration is the right level beyond the enumerated bound because the history space grows as 56^n; every leak mechanism (missing copy, shallow copy, wrong fan-out, wrong class) needs only 1-3 specific steps, which the enumeration covers completely.",
+        design_ref="DESIGN.md section 3, C10",
+        note="Trusted: the model's transition rule (DESIGN.md 3/C10; validated on the unchanged tree at every step of every history), the label canonicaliser for registry contents, fork() giving a pristine registry state per history. Single inheritance only. There is no clock, channel or scheduler in this property: the simulated nondeterminism is the order of operations, the faults are failing registrations.",
+        technique="deterministic simulation of registration histories (fork-per-history world, failing registrations) with step-by-step refinement against an executable registry model; short histories enumerated",
+        quick_timeout=900, thorough_timeout=10800),
     "C18": dict(
         category="exploration",
         text="Seeded multi-document streams (documents from empty to several refill blocks, comment/blank gaps, '...' and directive boundaries, several blocks of tail) delivered as text / UTF-8 / UTF-16 through SimReader with seeded read-size schedules to scan / parse / compose_all / load_all on both back-ends. Three oracles: (bound) at each document delivery, units handed out by the stream minus the end of the document's terminating token <= 2 refill blocks (4096 units pure Python, 16384 LibYAML) with no extra tolerance; (order) k good documents + one malformed document (20 malformation kinds at scanner / parser / directive / composer / constructor / reader level): exactly the k documents are delivered, then the error; (release) with the cyclic GC disabled a weak reference to the stream dies as soon as the generator is closed, thrown into, dropped or exhausted, at seeded abandonment points, for all ten shipped loader classes. Sampling is the right level: the bound is a worst-case statement over unboundedly many (stream, schedule) pairs; the measured maxima (8187 / 16381) are reported so that the margin is visible.",
